@@ -44,8 +44,8 @@ def gen_resubmit(ch, prof):
     sc["resubmit"] = steps
     # eager user: resubmits as soon as show-status says complete (the completing node and other
     # batches may still be in the queue), instead of waiting until everything has left the queue
-    sc["resubmit_eager"] = g.flip(0.4)
-    sc["resubmit_delay"] = g.pick([0.0, 0.5, 3.0, 30.0])
+    sc["resubmit_eager"] = g.flip(0.5)
+    sc["resubmit_delay"] = g.pick([0.0, 0.0, 0.5, 3.0, 30.0])
     # refusal probes: resubmit-jobs on the incomplete submission
     if g.flip(0.4):
         kind = g.pick(["sbatch", "job_launch", "job_exit"])
@@ -69,8 +69,13 @@ class ResubmitDriver(Driver):
         if o.get("completed_now") and w.scenario.get("resubmit_eager") and self.steps and sub.out == w.output:
             w.after(float(w.scenario.get("resubmit_delay", 0.0)), lambda: self._eager(), "user")
 
-    def _eager(self):
+    def _eager(self, tries=0):
         st = self.status()
+        if st and st.get("is_complete") and st.get("submitter") is not None and tries < 200:
+            # (the user sees "complete" but the completing round has not released the role yet:
+            # resubmit-jobs would just assert; a user retries a moment later)
+            self.w.after(0.25, lambda: self._eager(tries + 1), "user")
+            return
         if st and st.get("is_complete") and not any(v.alive and v.role == "resubmit-jobs" for v in self.w.vprocs):
             self.w.probe("resubmit_eager")
             self.after_complete(st)
@@ -399,7 +404,7 @@ profiles.profile("resubmit", mode="hpc", fault_free=True, no_liveness=True, kind
                  extra_monitors=_extra, driver_cls=ResubmitDriver, max_jobs=8, p_reports=0.5, p_fail=0.45,
                  max_steps=60000)
 profiles.PROFILE_PROPS["resubmit"] = ["C13"]
-profiles.CHECKS["C13"] = {"profiles": [("resubmit", 1.0)], "quick": {"runs": 2400}, "thorough": {"runs": 150000}}
+profiles.CHECKS["C13"] = {"profiles": [("resubmit", 1.0)], "quick": {"runs": 3200}, "thorough": {"runs": 150000}}
 profiles.RULES["C13"] = ("first epoch run to completion with a drawn mix of successful / failed / canceled / missing jobs (missing via a "
                          "lost batch), reports on or off, then 1-3 jade resubmit-jobs with drawn --failed/--missing/--successful flags, "
                          "each run to completion; exit codes may change per epoch; plus resubmit-jobs issued on the incomplete "
@@ -419,7 +424,7 @@ profiles.nontrivial = _nontrivial
 # C09 is also observed over cancel and resubmit histories (DESIGN.md 7.9)
 profiles.CHECKS["C09"]["profiles"] = [("clean_hpc", 0.5), ("cancel", 0.25), ("resubmit", 0.25)]
 profiles.CHECKS["C02"]["profiles"] = [("clean_hpc", 0.55), ("clean_local", 0.25), ("resubmit", 0.2)]
-profiles.CHECKS["C06"]["profiles"] = [("clean_hpc", 0.55), ("clean_local", 0.25), ("resubmit", 0.2)]
+profiles.CHECKS["C06"]["profiles"] = [("clean_hpc", 0.5), ("clean_local", 0.2), ("resubmit", 0.3)]
 profiles.RULES["C06"] = profiles.RULES["C06"].replace("as C01;", "as C01, plus resubmissions issued while old batches are still queued or running;")
 profiles.RULES["C02"] = profiles.RULES["C02"].replace("HPC and local mode;", "HPC and local mode, plus resubmission epochs (blockers that are rerun must have a new outcome);")
 profiles.RULES["C09"] = profiles.RULES["C09"].replace("as C01;", "as C01, plus cancel and resubmit histories;")
